@@ -763,8 +763,12 @@ class Probability(Expression):
         return Probability(distribution)
 
     def _get_key(self):  # type:ignore
-        # TODO incorporate more information from children and parents
-        return 0, self.children[0].name
+        return (
+            0,
+            self.children[0].name,
+            tuple(_variable_total_key(child) for child in self.children),
+            tuple(_variable_total_key(parent) for parent in self.parents),
+        )
 
     def to_text(self) -> str:
         """Output this probability in the internal string format."""
@@ -1211,7 +1215,11 @@ class Sum(Expression):
         return self
 
     def _get_key(self):  # type:ignore
-        return 1, *self.expression._get_key()  # type:ignore
+        return (
+            1,
+            self.expression._get_key(),
+            tuple(_variable_total_key(variable) for variable in self._get_sorted_ranges()),
+        )
 
     def _get_sorted_ranges(self) -> Sequence[Variable]:
         return sorted(self.ranges, key=attrgetter("name"))
@@ -1594,6 +1602,12 @@ def _variable_sort_key(variable: Variable) -> tuple[str, str]:
         return variable.name, ""
 
 
+def _variable_total_key(variable: Variable) -> tuple[str, str, str]:
+    """Get a sort key that tells apart any two different variables (name, value mark, interventions)."""
+    name, interventions = _variable_sort_key(variable)
+    return name, variable._get_sign(), interventions
+
+
 def _sorted_variables(variables: Iterable[Variable]) -> tuple[Variable, ...]:
     return tuple(sorted(variables, key=_variable_sort_key))
 
@@ -1699,7 +1713,13 @@ class PopulationProbability(Probability):
         return PopulationProbability(population=self.population, distribution=distribution)
 
     def _get_key(self):  # type:ignore
-        return -1, self.population, self.children[0].name
+        return (
+            -1,
+            self.population,
+            self.children[0].name,
+            tuple(_variable_total_key(child) for child in self.children),
+            tuple(_variable_total_key(parent) for parent in self.parents),
+        )
 
     def to_y0(self) -> str:
         """Output this probability instance as y0 internal DSL code."""
